@@ -538,6 +538,38 @@ def run_workflow(case):
                     else:
                         res.ok("bad partial signature rejected at load", nontrivial=(label, "badsig", tuple(sorted(S)), ii, j, how))
     # ---- transitions
+    need_sigs = m if cfg["stype"] in MULTI else 1
+    final_canon = {}
+
+    def canon_final(T):
+        """serialised final transaction of the canonical PSBT of subset T (parse -> finalize -> final_tx)"""
+        if T not in final_canon:
+
+            def f():
+                p = parse_lib(canon[T])
+                p.finalize()
+                return txref.ser_tx(abstract(p.final_tx()))
+
+            final_canon[T] = attempt(f)
+        return final_canon[T]
+
+    def check_final(make, T, what, fp):
+        def f():
+            p = make()
+            p.finalize()
+            # compared field by field (re-encoded by the reference writer): scriptSigs, witnesses, outputs, ... —
+            # not the library's choice of legacy / segwit framing, which follows the segwit flag of the Tx object
+            return txref.ser_tx(abstract(p.final_tx()))
+
+        got, want = attempt(f), canon_final(T)
+        res.transitions += 1
+        if isinstance(want, Rejected):
+            return  # reported by the state invariants
+        if got != want:
+            res.violation(f"C10/{eng}/final-tx-depends-on-order/{fp}/{cfg['stype']}", vc, repr(got)[:120] if isinstance(got, Rejected) else got[:60].hex() + f"..({len(got)} bytes)", want[:60].hex() + f"..({len(want)} bytes)", f"{label}: final transaction of the {what} differs from the final transaction of the canonical PSBT of subset {sorted(T)}")
+        else:
+            res.ok("final tx independent of order", nontrivial=(label, "final-order", what))
+
     flavours = ("parsed", "built")
     # on the real curve building an object costs seconds: built<-built is left to the toy engine
     combine_flavours = [(a, b) for a in flavours for b in flavours if toy or (a, b) != ("built", "built")]
@@ -568,6 +600,10 @@ def run_workflow(case):
                     continue
                 raw = attempt(lambda: parse_lib(inject_unknown(W.built(S, order).serialize())).serialize())
                 check_target(raw, S, f"signing order {list(order)}", "sign-order")
+                # ... and the FINAL TRANSACTION extracted from the in-memory object signed in that order (no
+                # serialise/parse in between, which would re-order the partial signatures) must not depend on the order
+                if len(S) >= need_sigs:
+                    check_final(lambda: W.built(S, order), S, f"in-memory PSBT signed in order {list(order)}", "sign-order")
         # combine with every reachable PSBT, every flavour pair
         for T in subsets(n):
             for fa, fb in combine_flavours:
@@ -585,6 +621,14 @@ def run_workflow(case):
                         return raw
 
                     check_target(attempt(f), U, f"combine({fa} {sorted(S)} <- {fb} {sorted(T)})", f"combine/{fa}<-{fb}")
+                    if toy and len(U) >= need_sigs and S and T and not (S <= T or T <= S):
+                        # the final transaction of the in-memory result of a combine (toy instance only: cost)
+                        def g():
+                            a, b = obj(S, fa), obj(T, fb)
+                            a.combine(b)
+                            return a
+
+                        check_final(g, U, f"in-memory combine({fa} {sorted(S)} <- {fb} {sorted(T)})", "combine")
     return res
 
 
@@ -1278,7 +1322,7 @@ def run_forms(case):
 def engines(tier, seed):
     toy = (211, 199)
     return [
-        Engine(f"workflow-toy{toy[0]}", gen_workflow(toy), run_workflow, toy=toy, kind="E2", rule="toy instance (p=211, n=199): script types {P2PKH, P2WPKH, P2SH-P2WPKH} x 1..2 inputs and {P2SH, P2WSH, P2SH-P2WSH} x every 1<=m<=n<=3 (thorough 4) x 1..2 (3) inputs x tx segwit flag: state space = all signer subsets; transitions = sign(i) on parsed/built objects, every signing permutation, combine(a<-b) for every ordered pair of subsets in all four built/parsed flavours; every transition must give the byte-identical canonical PSBT of the target subset; state invariants: idempotent re-serialisation, reference BIP174 reader sees a non-witness unsigned tx with empty scriptSigs, unknown key-values and global xpubs survive, finalize+final_tx reference-valid iff >= m signers, bad partial signatures rejected at load"),
+        Engine(f"workflow-toy{toy[0]}", gen_workflow(toy), run_workflow, toy=toy, kind="E2", rule="toy instance (p=211, n=199): script types {P2PKH, P2WPKH, P2SH-P2WPKH} x 1..2 inputs and {P2SH, P2WSH, P2SH-P2WSH} x every 1<=m<=n<=3 (thorough 4) x 1..2 (3) inputs x tx segwit flag: state space = all signer subsets; transitions = sign(i) on parsed/built objects, every signing permutation, combine(a<-b) for every ordered pair of subsets in all four built/parsed flavours; every transition must give the byte-identical canonical PSBT of the target subset; state invariants: idempotent re-serialisation, reference BIP174 reader sees a non-witness unsigned tx with empty scriptSigs, unknown key-values and global xpubs survive, finalize+final_tx reference-valid iff >= m signers, bad partial signatures rejected at load; the final transaction extracted from the in-memory object after every signing order (and, toy, after every combine of incomparable subsets) equals the final transaction of the canonical PSBT"),
         Engine(
             f"forms-toy{toy[0]}",
             gen_forms(toy),
